@@ -485,9 +485,10 @@ package dawn
 //@   callsite CreateTemp: assert in-temp-dir: $0 == proj.temp
 //@   callsite Rename: assert after-complete-write: enc_ok && close_ok
 //@   callsite Rename: assert onto-record-path: $0 == tempName && $1 == path
+//@   callsite Rename: assert record-directory-ensured: mkdir_ok && mkdir_last == pdir(path)
 //@   ensures  one-rename: n_rename <= old(n_rename) + 1 && n_createtemp <= old(n_createtemp) + 1
 //@   ensures  success-means-renamed: result == nil ==> n_rename == old(n_rename) + 1
-//@   modifies heap, enc_ok, close_ok, n_rename, n_createtemp
+//@   modifies heap, enc_ok, close_ok, n_rename, n_createtemp, mkdir_last, mkdir_ok
 
 // The up-to-date check of a source looks at contents only.
 //@ func (*dawn.sourceFile).upToDate variant content-only
@@ -624,3 +625,27 @@ package dawn
 //@   callsite Split: assert splits-the-confined-path: $0 == confined
 //@   modifies heap, confined, smap, n_json, json_failed, n_save, saved_rerun, saved_data, saved_deps, ipos
 //@   loop over generates: step one-output-per-entry: when true ensures len(gens) == old(len(gens)) + 1
+
+// ---------------------------------------------------------------- C14: the index load registers every indexed target
+// `dawn gc` loads the project from the index. Every target the index lists is registered (whether
+// or not its file is present right now), so that GC marks its record: an iteration of the loop over
+// the index either registers the target under its label or leaves the function with an error.
+//@ specfn parses(string) bool
+//@ smt <<<
+//@ (declare-fun parses (Str) Bool)
+//@ >>>
+//@ func label.Parse variant classifies
+//@   trusted
+//@   ensures (result.1 == nil) == parses(rawlabel)
+//@   ensures result.1 == nil ==> result.0 != nil
+//@   modifies heap
+// (C15) the dependency keys of a record become the dependency labels of an index target, which are
+// parsed without an error path when they are listed: a key that is not a label fails the index load.
+//@ func (*dawn.Project).loadIndex variant registers
+//@   uses (*label.Label).String variant function-of-fields
+//@   uses label.Parse variant classifies
+//@   requires proj != nil && proj.targets != nil && proj.flags != nil
+//@   modifies heap, n_json, json_failed
+//@   loop over info.Dependencies: step dependency-keys-are-labels: when true ensures parses(k)
+//@   loop over index.Targets: step unreadable-record-is-an-error: when true ensures err == nil
+//@   loop over index.Targets: step every-indexed-target-is-registered: when true ensures has(proj.targets, lstr4(l.Kind, l.Project, l.Package, l.Name))
